@@ -29,7 +29,6 @@ QUAD_TYPES = ['RADAU-RIGHT', 'LOBATTO', 'GAUSS', 'RADAU-LEFT']
 
 def describe(rep):
     rep.func(th.restriction_matrix_1d, th.interpolation_matrix_1d, th.next_neighbors, th.next_neighbors_periodic, th.continue_periodic_array, th.border_padding)
-    import pySDC.helpers.transfer_helper as th
     from pySDC.implementations.transfer_classes.TransferMesh_NoCoarse import mesh_to_mesh as nocoarse
 
     rep.func(BaseTransfer.get_transfer_matrix_Q, mesh_to_mesh.__init__, mesh_to_mesh.restrict, mesh_to_mesh.prolong, th.interpolation_matrix_1d,
